@@ -28,6 +28,7 @@ type zzWrite struct {
 	kind  string // status-update | update | patch | delete | create
 	phase v1beta1.Phase
 	uid   string
+	enis  string // interface ids of the allocations, comma separated
 }
 
 type zzClient struct {
@@ -69,6 +70,9 @@ func (c *zzClient) rec(kind string, obj client.Object) error {
 	if p, ok := obj.(*v1beta1.PodENI); ok {
 		w.phase = p.Status.Phase
 		w.uid = p.Annotations[types.PodUID]
+		for _, a := range p.Spec.Allocations {
+			w.enis += a.ENI.ID + ","
+		}
 	}
 	c.writes = append(c.writes, w)
 	if c.writeErr {
@@ -101,6 +105,11 @@ type zzStatus struct {
 
 func (w *zzStatus) Update(ctx context.Context, obj client.Object, opts ...client.SubResourceUpdateOption) error {
 	return w.c.rec("status-update", obj)
+}
+
+// a merge patch carries no resourceVersion: it cannot be rejected when the record changed meanwhile
+func (w *zzStatus) Patch(ctx context.Context, obj client.Object, patch client.Patch, opts ...client.SubResourcePatchOption) error {
+	return w.c.rec("status-patch", obj)
 }
 
 type zzCloud struct {
@@ -208,6 +217,25 @@ func ZZ_C10_pod_reconcile() {
 	}
 	if sameInstance {
 		zz.Assert(len(cloud.deleted) == 0, "no interface of a running pod instance is deleted in the cloud")
+	}
+	for _, w := range cl.writes {
+		zz.Assert(w.kind != "status-patch" || !hasRec || w.phase == oldPhase, "a phase change is written with a conflict-checked update, never with an unconditional patch")
+	}
+	// re-binding a retained (unbound) record to the pod that came back: first the record is re-targeted
+	// to the new pod instance, then - in a later pass - moved to binding; interface and address are kept
+	if !cl.podErr && podState == 1 && hasRec && oldPhase == v1beta1.ENIPhaseUnbind && cl.podENI.DeletionTimestamp.IsZero() {
+		zz.Reach("rebind")
+		zz.Assert(len(cl.writes) == 1 && len(cloud.deleted) == 0 && created == 0, "re-binding is one write per pass and touches no interface")
+		if len(cl.writes) == 1 {
+			w := cl.writes[0]
+			zz.Assert(w.enis == "eni-old,", "the retained interface (and with it the address) is kept by the re-binding")
+			if recUID != podUID {
+				zz.Assert(w.kind == "update" && w.uid == podUID && w.phase == v1beta1.ENIPhaseUnbind, "a record of a previous pod instance is first re-targeted to the new instance, its phase untouched")
+			} else {
+				zz.Assert(w.kind == "status-update" && w.phase == v1beta1.ENIPhaseBinding && w.uid == podUID, "a record that already names this pod instance is moved to binding with a conflict-checked status update")
+			}
+			zz.Assert(zz.Implies(cl.writeErr, err != nil), "a failed write is reported (the pass is retried)")
+		}
 	}
 	if cl.podErr {
 		zz.Assert(len(cl.writes) == 0 && len(cloud.deleted) == 0 && err != nil, "a failing pod lookup changes nothing")
